@@ -67,3 +67,52 @@ def _plain(sc):
 
 def _obs(sc, r, rootname, isolated=False):
     return {"id": sc["id"], "sc": _plain(sc), "obs": topo.observe(sc, Stubs(r), api_index(r.api()), rootname)}
+
+
+def run_topology2(v: Verdict) -> None:
+    """Universe U2 (spec/Package2.tla): two declarations with interacting re-exports; judged for C03."""
+    from pygen import write_pkg
+    scs = generate(v, "Package2", "Topo2_MC.cfg", min_records=50)
+    if not scs:
+        return
+    for k, sc in enumerate(scs):
+        sc["id"] = 5000 + k
+    packs = []
+    for c in range(0, len(scs), 30):
+        root = f"toptwo{c // 30:02d}"
+        files = {"__init__.py": ""}
+        for sc in scs[c:c + 30]:
+            files.update(topo.u2_files(sc, root))
+        packs.append((write_pkg(files, root), scs[c:c + 30]))
+    runs = topo.run_packs(packs)
+    obs = []
+    for (d, chunk), r in zip(packs, runs):
+        if r.exit != "ok":
+            v.extra.setdefault("unobservable_packs", []).append({"pack": d.name, "exit": r.exit, "exc": r.exc, "frame": r.frame})
+            continue
+        stubs = Stubs(r)
+        for sc in chunk:
+            obs.append({"id": sc["id"], "sc": {"kind": sc["kind"], "exports": sc["exports"]}, "obs": topo.u2_observe(sc, stubs, d.name)})
+    if not obs:
+        return
+    bad = [b for b in judge(v, "Topo2_Trace", obs) if b.get("property") == "C03"]
+    by_id = {o["id"]: o for o in obs}
+    failing = sorted({b["subject"] for b in bad})
+    if failing:      # isolation re-run (DESIGN 6.4)
+        singles = []
+        for i in failing:
+            sc = dict(by_id[i]["sc"], id=i)
+            root = f"toptis{i}"
+            files = {"__init__.py": ""}
+            files.update(topo.u2_files(sc, root))
+            singles.append((sc, write_pkg(files, root)))
+        rs = run_many([{"src": p, "opts": Opts(), "timeout": 300} for _, p in singles])
+        iso = [{"id": sc["id"], "sc": {"kind": sc["kind"], "exports": sc["exports"]}, "obs": topo.u2_observe(sc, Stubs(r), p.name)}
+               for (sc, p), r in zip(singles, rs) if r.exit == "ok"]
+        bad = [b for b in judge(v, "Topo2_Trace", iso) if b.get("property") == "C03"] if iso else []
+        src = {sc["id"]: str(p) for sc, p in singles}
+        for b in bad:
+            b["scenario"] = by_id[b["subject"]]["sc"]
+            b["_replay_src"] = src.get(b["subject"])
+    v.add_bad(bad)
+    v.extra["u2_scenarios"] = len(obs)
